@@ -49,12 +49,18 @@ def dInner : Doc :=
       [("properties", .node .innerSchemaRef { strs := [("key", "a")], sibs := ["bogus"], flags := ["resolved"] } [("value", strSchema)])]) []))]]
 
 /-- repaired by 9d56ffd: an example that gives `externalValue` only, under a media type with a string schema -/
-def dExternal : Doc :=
-  root [pathItem "/p" [op [] (responseWithContent (mediaType strSchema
-    [("examples", .node .exampleRef { strs := [("key", "e")], flags := ["resolved"] }
-        [("value", .node .example { strs := [("externalValue", "https://example.com/e.json")] } [])])]))]]
 def mediaTypeHE (schema : Doc) (kids : List (String × Doc)) : Doc :=
   .node .mediaType { strs := [("key", "application/json")], flags := ["hasSchema", "hasExamples"] } (("schema", schemaRefTo schema) :: kids)
+def externalExample : String × Doc :=
+  ("examples", .node .exampleRef { strs := [("key", "e")], flags := ["resolved"] }
+      [("value", .node .example { strs := [("externalValue", "https://example.com/e.json")] } [])])
+def dExternal : Doc :=
+  root [pathItem "/p" [op [] (responseWithContent (mediaTypeHE strSchema [externalExample]))]]
+/-- … next to an example whose value (an integer) violates the string schema -/
+def dExternalBad : Doc :=
+  root [pathItem "/p" [op [] (responseWithContent (mediaTypeHE strSchema [externalExample,
+    ("examples", .node .exampleRef { strs := [("key", "f")], flags := ["resolved"] }
+      [("value", .node .example { vals := [("value", .int)] } [])])]))]]
 
 /-- a default that violates its schema, two levels down (`items` of a schema without `type`) -/
 def dDeepDefault : Doc :=
